@@ -9,6 +9,7 @@ structure St where
   fnotin : Filters := []
   reTab : List (Bytes × Bytes × Bool) := []
   qx : Option QCfg := none
+  mapTab : List (Bytes × Int) := []
 
 def parseBool? (s : String) : Option Bool :=
   if s = "0" then some false else if s = "1" then some true else none
@@ -39,6 +40,21 @@ def reLookup (tab : List (Bytes × Bytes × Bool)) (p s : Bytes) : Bool :=
   match tab.find? (fun e => e.1 == p && e.2.1 == s) with
   | some e => e.2.2
   | none => false
+
+def parseComment? (s : String) : Option (Bytes × Bytes) :=
+  match s.splitOn ":" with
+  | [k, c] => match parseHex? k, parseHex? c with
+    | some k, some c => some (k, c)
+    | _, _ => none
+  | _ => none
+
+def mapLookup (tab : List (Bytes × Int)) (s : Bytes) : Option Int :=
+  match tab.find? (fun e => e.1 == s) with
+  | some e => some e.2
+  | none => none
+
+def showTV (v : TagValue) : String :=
+  s!"{(if v.hasValue then 1 else 0) + (if v.isMapped then 2 else 0)}:{v.mapped}:{showHex v.value}"
 
 def showLits (ls : List Bytes) : String :=
   if ls.isEmpty then "-" else ",".intercalate (ls.map (fun l => "h" ++ showHex l))
@@ -96,6 +112,35 @@ def step (st : St) (toks : List String) : St × List String :=
         | none => (st, ["body-error"])
       else (st, ["bad-op"])
     | _, _ => (st, ["bad-op"])
+  | ["map", h, id] =>
+    match parseHex? h, id.toInt? with
+    | some h, some id => ({ st with mapTab := st.mapTab ++ [(h, id)] }, [])
+    | _, _ => (st, ["bad-op"])
+  | ["gtf", inTags, raw, isLe, comments, le, h] =>
+    match parseBool? inTags, parseBool? raw, parseBool? isLe, (parseList comments).mapM parseComment?, parseHex? h with
+    | some inTags, some raw, some isLe, some comments, some h =>
+      let leEnc : Option (Option Int) := if le = "-" then some none else (le.toInt?).map some
+      match leEnc with
+      | none => (st, ["bad-op"])
+      | some leEnc =>
+        if comments.any (fun p => p.1.isEmpty) then (st, ["bad-op"])
+        else
+          match getTagFilter (mapLookup st.mapTab) leEnc { inTags := inTags, raw := raw, isLe := isLe, comments := comments } h with
+          | some v => (st, ["tv " ++ showTV v])
+          | none => (st, ["tv-error"])
+    | _, _, _, _, _ => (st, ["bad-op"])
+  | ["iex", x, hi, lo, al, pk] =>
+    match st.cfg, x.toNat?, hi.toInt?, lo.toInt?, al.toInt?, pk.toInt? with
+    | some c, some x, some hi, some lo, some al, some pk =>
+      if x ≥ maxTags then (st, ["bad-op"]) else
+      let e32 : Bytes → BitVec 32 := fun n =>
+        if n == colInt c x then BitVec.ofInt 32 lo
+        else if n == colInt c (x + 1) then BitVec.ofInt 32 hi
+        else if n == str "_prekey" then BitVec.ofInt 32 pk
+        else 0
+      let v := (whereIntAST c x).eval e32 (fun _ => BitVec.ofInt 64 al)
+      (st, [s!"iex {if v.wide then 1 else 0} {if v.signed then 1 else 0} {v.bits.toInt}"])
+    | _, _, _, _, _, _ => (st, ["bad-op"])
   | ["lex", h] =>
     match parseHex? h with
     | some b =>
